@@ -510,9 +510,9 @@ def extra_c09_ops(prop, tier, seed):
 
 def extra_c04_mirror(prop, tier, seed):
     """Bounded stand-in (labelled, never counted) for C04 on the REAL validators: JSON verdict == CBOR verdict
-    for every JSON-expressible value out of 22 (incl. non-ASCII text, integers at the byte-width boundaries) x ~370
+    for every JSON-expressible value out of 27 (incl. non-ASCII text, integers at the byte-width boundaries, small maps) x ~380
     schemas (types, two-way choices, .and/.within, comparison controls, prelude names, ranges, .size 0..16 on tstr and
-    uint, .regexp, small arrays and maps).  Instances that
+    uint, .regexp, small arrays and maps, group choices that share members).  Instances that
     disagree on the unchanged tree are recorded in known_instances_C04.json (known finding F21)."""
     out, err = _replay(['u5d', 'findmirror'], timeout=3000)
     if out is None:
@@ -521,7 +521,7 @@ def extra_c04_mirror(prop, tier, seed):
     failing = out.get('failing', [])
     new = [f for f in failing if f not in known]
     res = {'violations': [], 'bounded': [{'check': 'JSON verdict == CBOR verdict on the same value (real validators)',
-                                          'bound': '~370 schemas x 22 JSON-expressible values', 'comparisons': out.get('tried'),
+                                          'bound': '~380 schemas x 27 JSON-expressible values', 'comparisons': out.get('tried'),
                                           'disagreeing_instances': len(failing), 'recorded_as_known_F21': len(failing) - len(new), 'new': len(new)}]}
     if failing and len(new) < len(failing):
         w = {'id': 'mirror##t = number .gt 1.5##255'}
